@@ -149,14 +149,14 @@ def ccp_dominates(body, a, x):
     return a == x or x not in ccp_reachable(body, 0, avoid={a})
 
 
-def ccp_reachable(body, start, unwind=False, avoid=()):
+def ccp_reachable(body, start, unwind=False, avoid=(), init=None):
     """blocks reachable from `start` under conditional constant propagation of locals that are
     assigned literal bool / integer constants (drop flags, `matches!` results): a switch on a
     local whose value is a known constant follows only the matching edge.  Forward dataflow with
     intersection at joins (sound: an unknown value follows every edge)."""
     import facts as F
     n = len(body["blocks"])
-    state = {start: {}}
+    state = {start: dict(init or {})}      # init: values assumed on entry of `start` (e.g. "this test came out true")
     work = [start]
     TOP = object()
     while work:
@@ -181,6 +181,9 @@ def ccp_reachable(body, start, unwind=False, avoid=()):
                     val = ("v", rv[1]["vi"])
                 if rv[0] == "discr" and len(rv[1]) == 1 and isinstance(st.get(rv[1][0]), tuple):
                     val = st[rv[1][0]][1]
+                if rv[0] == "unop" and rv[1] == "Not" and F.op_local(rv[2]) is not None and st.get(F.op_local(rv[2])) in (0, 1) and \
+                        body["locals"][tgt]["s"] == "bool":
+                    val = 1 - st[F.op_local(rv[2])]
                 if val is None:
                     st.pop(tgt, None)
                 else:
